@@ -388,6 +388,18 @@ m('c02-r7-gradual-counter-narrowed', 'C02', 'C02-R7', 'tiny_droplets', diff='sel
 # seed C14-4 itself: the hold-note count is decided by `duration > 0.0` in a merged helper instead of by the object kind
 m('c14-r5-hold-by-duration', 'C14', 'C14-R5', 'mania:n_hold_notes', diff='selftest/seed_diffs/C14-4.diff')
 # seed C16-4 itself: a bulk zero-section shortcut in process() taken only when the skill's own peak has decayed to 0
+# seed C14-6 itself: the taiko counting closure is called by hand behind the `let (Some, Some) = (next(), next()) else return` exit
+m('c14-r6-count-behind-early-exit', 'C14', 'C14-R6', 'taiko:count-every-object', diff='selftest/seed_diffs/C14-6.diff')
+# the inspect() adaptor moved behind skip(1): the first object is never counted
+m('c14-r6-inspect-after-skip', 'C14', 'C14-R6', 'taiko:count-every-object',
+  ('src/taiko/difficulty/mod.rs', """            })
+            .skip(1);
+""", """            });
+"""),
+  ('src/taiko/difficulty/mod.rs', """            .map(|(h, s)| TaikoObject::new(h, *s))
+            .inspect(|h| {""", """            .map(|(h, s)| TaikoObject::new(h, *s))
+            .skip(1)
+            .inspect(|h| {"""))
 m('c16-r7-sections-depend-on-strain', 'C16', 'C16-R7', 'osu:Aim', diff='selftest/seed_diffs/C16-4.diff')
 # seed C19-4 itself: next_int_range = min + next_max(max) (span max instead of max - min)
 m('c19-r5-range-span', 'C19', 'C19-R5', 'range:next_int_range', diff='selftest/seed_diffs/C19-4.diff')
